@@ -77,6 +77,15 @@ Dispatch(e) == LET k == e.k  a == e.a IN
     \/ e.op = "ValueInit"       /\ ValueInit(a.o)
     \/ e.op = "EqualM"          /\ EqualM(k)
     \/ e.op = "LessThanM"       /\ LessThanM(k)
+    \/ e.op = "PostIncDeref"    /\ PostIncDeref(k)
+    \/ e.op = "PostDecDeref"    /\ PostDecDeref(k)
+    \/ e.op = "DcAssign"        /\ DcAssign(k)
+    \/ e.op = "MultiPass"       /\ MultiPass(k, a.m)
+    \/ e.op = "StdRotate"       /\ StdRotate(k, a.m)
+    \/ e.op = "StdMinElement"   /\ StdMinElement(k)
+    \/ e.op = "StdCopyWithin"   /\ StdCopyWithin(k, a.j)
+    \/ e.op = "ToConst"         /\ ToConst(k)
+    \/ e.op = "MixedCmp"        /\ MixedCmp(k, a.o)
 
 TNext ==
     /\ l <= Len(JsonTrace)
